@@ -68,8 +68,8 @@ def B1_kind_blocks(repo, clause, funcs=None):
             if not any(k in msg for k in ks):
                 continue
             st = node
-            obs.append(Ob("B1", clause, fn, st if hasattr(st, "lineno") else fn.node, False, msg, slot="foreign:%s" % re.sub(r"\s+", " ", ast.unparse(node))[:80],
-                          positive=n >= need))
+            obs.append(Ob("B1", clause, fn, st if hasattr(st, "lineno") else fn.node, False, msg.replace("NESTED-KIND: ", ""), slot="foreign:%s" % re.sub(r"\s+", " ", ast.unparse(node))[:80],
+                          positive="robust" if msg.startswith("NESTED-KIND: ") else n >= need))
     # the four num_K_types properties are siblings of each other
     if funcs is None or "Atoms.num_*_types" in funcs:
         pieces = {}
